@@ -14,6 +14,9 @@ package main
 //   relay_decpending_body   the statements of Relayer.decrementPending, one row each
 //   relay_decpending_calls  every call of Relayer.decrementPending: (function, guard)
 //   relay_checkex_sites     every call of Connection.checkExchanges inside relay.go: (function, guard)
+//   relay_get_body          the statements of relayItems.Get, one row each, complete text on one line
+//   relay_deletetomb_body   the statements of relayItems.deleteTomb (the scheduled tombstone collection)
+//   relay_gc_sites          every time.AfterFunc call in relay.go: (function, the scheduled function literal / value)
 
 import (
 	"bytes"
@@ -178,7 +181,8 @@ func (t *translator) rsArgText(fd *ast.FuncDecl, a ast.Expr) string {
 
 func (t *translator) relaySites(w *bytes.Buffer) map[string]int {
 	info := t.pkg.TypesInfo
-	var gets, stops, pend, body, calls, chk []rsRow
+	var gets, stops, pend, body, calls, chk, getBody, tombBody, gcs []rsRow
+	full := func(n ast.Node) string { return strings.Join(strings.Fields(t.src(n)), " ") }
 	for _, f := range t.pkg.Syntax {
 		fname := filepath.Base(t.fset.Position(f.Pos()).Filename)
 		if strings.HasSuffix(fname, "_test.go") || strings.HasPrefix(fname, "zz_verif") {
@@ -193,6 +197,16 @@ func (t *translator) relaySites(w *bytes.Buffer) map[string]int {
 			if fn == "Relayer.decrementPending" {
 				for _, s := range fd.Body.List {
 					body = append(body, rsRow{fname, int(s.Pos()), []string{t.oneLine(s)}})
+				}
+			}
+			if fn == "relayItems.Get" {
+				for _, s := range fd.Body.List {
+					getBody = append(getBody, rsRow{fname, int(s.Pos()), []string{full(s)}})
+				}
+			}
+			if fn == "relayItems.deleteTomb" {
+				for _, s := range fd.Body.List {
+					tombBody = append(tombBody, rsRow{fname, int(s.Pos()), []string{full(s)}})
 				}
 			}
 			// selector expressions that are the Fun of a call (so that a bare use can be told apart)
@@ -215,6 +229,10 @@ func (t *translator) relaySites(w *bytes.Buffer) map[string]int {
 					if !ok {
 						return
 					}
+					if id, ok := sel.X.(*ast.Ident); ok && id.Name == "time" && sel.Sel.Name == "AfterFunc" && fname == "relay.go" && len(x.Args) == 2 {
+						gcs = append(gcs, rsRow{fname, int(x.Pos()), []string{fn, full(x.Args[1])}})
+						return
+					}
 					tv, ok := info.Types[sel.X]
 					if !ok {
 						return
@@ -234,6 +252,7 @@ func (t *translator) relaySites(w *bytes.Buffer) map[string]int {
 					case rn == "Connection" && sel.Sel.Name == "checkExchanges" && fname == "relay.go":
 						chk = append(chk, rsRow{fname, int(x.Pos()), []string{fn, g}})
 					}
+
 				case *ast.SelectorExpr:
 					if x.Sel.Name != "pending" {
 						return
@@ -288,5 +307,8 @@ func (t *translator) relaySites(w *bytes.Buffer) map[string]int {
 	emit("relay_decpending_body", 1, body)
 	emit("relay_decpending_calls", 2, calls)
 	emit("relay_checkex_sites", 2, chk)
+	emit("relay_get_body", 1, getBody)
+	emit("relay_deletetomb_body", 1, tombBody)
+	emit("relay_gc_sites", 2, gcs)
 	return map[string]int{"get": len(gets), "stop": len(stops), "pending": len(pend), "body": len(body), "calls": len(calls), "checkex": len(chk)}
 }
